@@ -3,8 +3,8 @@ NOTES = ("All checks are bounded solver verdicts (CBMC) over the real translatio
          "each evidence file lists per obligation the functions encoded, bounds, stubs, back end, "
          "solver statistics and what lies outside the claim. A timeout/out-of-memory obligation is "
          "reported INCONCLUSIVE and never counted as discharged.")
-CLAIMED = {
- "C15": dict(
+CLAIMED = {}
+CLAIMED["C15"] = dict(
    text="Every BCJ filter kernel (x86, ARM, ARM-Thumb, ARM64, PowerPC, IA-64, SPARC, RISC-V) and the delta "
         "kernels are symbolically executed from /repo's sources: decode(encode(x))==x, equal processed "
         "counts, no write outside the buffer, and byte-for-byte equality with independent reference "
@@ -15,8 +15,26 @@ CLAIMED = {
    note="Bounds: buffers of 7..16 bytes (quick) / 10..32 (thorough); streaming: 2-3 sliced calls. "
         "RISC-V has no independent reference (round trip + streaming only). Reference transforms in "
         "harness/C15/refs.h are the trusted oracle. Loop models of memcpy/memmove are used in the "
-        "streaming obligations."),
-}
+        "streaming obligations.")
+CLAIMED["C11"] = dict(
+   text="The real lzma_code()/lzma_strm_init()/lzma_end() are executed symbolically over a history of k calls "
+        "with symbolic action, buffer pointers, avail_in/avail_out, reserved-field mutation and optional "
+        "re-initialisation, against a coder stub that may consume/produce anything within its buffers and "
+        "return any status; a reference monitor of the documented protocol predicts every return code and "
+        "every next_in/next_out/avail/total update. All call sequences up to the bound are covered, which is "
+        "exactly the property's quantifier.",
+   note="Bound: k = 4 calls (quick) / 7 (thorough), buffers <= 8 bytes. The coder behind the handle is a "
+        "contract stub; per-coder supported_actions tables of the public init functions are not enumerated here.")
+CLAIMED["C03"] = dict(
+   text="Differential check of the real container-header decoders against specification-derived acceptors "
+        "(spec/xzspec.h) over ALL byte strings of the stated sizes: Stream Header, Stream Footer, Block Header "
+        "(with real Filter Flags and properties decoders), stream-flags comparison and filter-chain validation: "
+        "accept exactly when the spec says valid, same decoded values, documented error class.",
+   note="Bounds: Block Header sizes 8 and 12 bytes (quick), up to 24 (thorough). CRC32 is abstracted to an "
+        "arbitrary value in the Block Header/Footer obligations (real CRC32 vs definition: Stream Header "
+        "obligation and C14). OUTSIDE the claim: lzma_decode() (LZMA payload bits) - measured not to reach a "
+        "verdict under CBMC; LZMA2/Block/Stream state machines are added as separate obligations when present "
+        "in harness/C03/obl.py.")
 NOT_APPLICABLE = {
  "C20": "xzgrep/xzdiff/xzless are POSIX shell scripts run by /bin/sh, sed, grep, diff: no symbolic executor for sh/sed exists in this image and CBMC/z3/cvc5 cannot execute them from source or IR; an SMT model of sed and shell quoting would verify the model, not the scripts.",
 }
